@@ -1016,10 +1016,60 @@ theorem periodLe_total (a b : Period) : (periodLe a b || periodLe b a) = true :=
   rw [Bool.or_eq_true, periodLe_iff, periodLe_iff]
   omega
 
+theorem insertBy_perm {α : Type} (le : α → α → Bool) (x : α) : ∀ l : List α, (insertBy le x l).Perm (x :: l)
+  | [] => List.Perm.refl _
+  | y :: ys => by
+    unfold insertBy
+    split
+    · exact List.Perm.refl _
+    · exact ((insertBy_perm le x ys).cons y).trans (List.Perm.swap x y ys)
+
+theorem sortBy_perm {α : Type} (le : α → α → Bool) : ∀ l : List α, (sortBy le l).Perm l
+  | [] => List.Perm.refl _
+  | x :: xs => by
+    show (insertBy le x (sortBy le xs)).Perm (x :: xs)
+    exact (insertBy_perm le x _).trans ((sortBy_perm le xs).cons x)
+
+theorem insertBy_pairwise {α : Type} (le : α → α → Bool)
+    (htrans : ∀ a b c, le a b = true → le b c = true → le a c = true)
+    (htotal : ∀ a b, (le a b || le b a) = true) (x : α) :
+    ∀ l : List α, l.Pairwise (fun a b => le a b = true) → (insertBy le x l).Pairwise (fun a b => le a b = true)
+  | [], _ => by simp [insertBy]
+  | y :: ys, h => by
+    unfold insertBy
+    obtain ⟨hy, hys⟩ := List.pairwise_cons.mp h
+    split
+    · rename_i hxy
+      refine List.pairwise_cons.mpr ⟨?_, h⟩
+      intro z hz
+      rcases List.mem_cons.mp hz with e | hz'
+      · rw [e]; exact hxy
+      · exact htrans x y z hxy (hy z hz')
+    · rename_i hxy
+      have hyx : le y x = true := by
+        have := htotal x y
+        simp only [Bool.or_eq_true] at this
+        rcases this with h1 | h1
+        · exact absurd h1 hxy
+        · exact h1
+      refine List.pairwise_cons.mpr ⟨?_, insertBy_pairwise le htrans htotal x ys hys⟩
+      intro z hz
+      have := (insertBy_perm le x ys).mem_iff.mp hz
+      rcases List.mem_cons.mp this with e | hz'
+      · rw [e]; exact hyx
+      · exact hy z hz'
+
+theorem sortBy_pairwise {α : Type} (le : α → α → Bool)
+    (htrans : ∀ a b c, le a b = true → le b c = true → le a c = true)
+    (htotal : ∀ a b, (le a b || le b a) = true) :
+    ∀ l : List α, (sortBy le l).Pairwise (fun a b => le a b = true)
+  | [] => List.Pairwise.nil
+  | x :: xs => insertBy_pairwise le htrans htotal x _ (sortBy_pairwise le htrans htotal xs)
+
 theorem sortedPeriods_ok {buf : Buffer} {v : String} {ps : List Period} (h : sortedPeriods buf v = .ok ps) :
     ∃ qs, mapE (fun ck => match parsePeriod ck with
         | .ok p => (.ok p : R Period)
-        | .error _ => .error .other) (varKeys buf v) = .ok qs ∧ ps = qs.mergeSort periodLe := by
+        | .error _ => .error .other) (varKeys buf v) = .ok qs ∧ ps = sortBy periodLe qs := by
   unfold sortedPeriods at h
   split at h
   · cases h
